@@ -194,7 +194,8 @@ def render_go(p, pkgname="p", destname="dest"):
         dst += "type " + t.go + "\n\n"
     files["dest/d.go"] = dst
     for rel, txt in p.others:
-        files["p/" + rel] = txt
+        if txt is not None:             # None: another spelling of the path of a package file (./f.go), nothing to write
+            files["p/" + rel] = txt
     return files
 
 
@@ -506,3 +507,71 @@ def shadowed_names(p):
             if u.name == t.name and g is not f and t.name not in res:
                 res.append(t.name)
     return res
+
+
+# ------------------------------------------------ related file names (deterministic part of every run)
+NAME_PAIRS = [("user.go", "admin_user.go"),        # proper suffix, the longer name sorts first
+              ("order.go", "purchase_order.go"),   # proper suffix, the shorter name sorts first
+              ("a.go", "aa.go"),                   # suffix and prefix at once
+              ("user.go", "user_admin.go"),        # the stem is a proper prefix
+              ("x.go", "x.y.go")]                  # the stem is a prefix up to a dot
+
+
+def gen_pair_pkg(rng, cmd, short, long_):
+    """two files whose names are related (suffix / prefix), each declaring types the subcommand can generate for"""
+    p = Pkg()
+    p.files = sorted([File(short), File(long_)], key=lambda f: f.name)
+    pool = list(EXPORTED)
+    rng.shuffle(pool)
+    for f in p.files:
+        for _ in range(rng.choice([1, 2])):
+            n = pool.pop()
+            if cmd in ("new", "map"):
+                t = mk_struct(rng, n)
+                f.decls.append(("type", [t], None, False))
+                p.dest.append(TS(n, "struct", t.go, rhs="struct"))
+            elif cmd == "enum":
+                t = mk_int(rng, n)
+                f.decls.append(("type", [t], None, False))
+                f.decls.append(("const", n, ["%sP%d" % (n, i) for i in range(rng.randint(1, 3))], False))
+            else:
+                f.decls.append(("type", [mk_rest(rng, n)], None, False))
+        f.decls.append(("type", [mk_nonint(rng, pool.pop())], None, False))      # something ineligible as well
+    p.features.add("name_pair")
+    return p
+
+
+def gen_group_pkg(rng, cmd):
+    """aaa.go: a function-local type shadowing an eligible package-level type of a later file;
+    doc.go: declaration-free (home of the //go:generate line);
+    model.v2.go (a dot in the base name): one parenthesised type group in which ineligible specs come before,
+    between and after eligible ones; the shoot import is renamed."""
+    p = Pkg()
+    fa, fd, fm = File("aaa.go"), File("doc.go"), File("model.v2.go")
+    fm.shoot_alias = "sh"
+    pool = list(EXPORTED)
+    rng.shuffle(pool)
+    g1, g2, b1, b2 = pool.pop(), pool.pop(), pool.pop(), pool.pop()
+    u = rng.choice(UNEXPORTED)
+    consts = []
+    if cmd in ("new", "map"):
+        good = [mk_struct(rng, g1), mk_struct(rng, g2)]
+        bad = [mk_nonint(rng, b1), mk_int(rng, b2), mk_struct(rng, "_Hid", "_struct") if cmd == "new" else mk_struct(rng, u, "ustruct")]
+        for t in good + [bad[2]]:
+            p.dest.append(TS(t.name, "struct", t.go, rhs="struct"))      # incl. the same-named unexported struct
+    elif cmd == "enum":
+        good = [mk_int(rng, g1), mk_int(rng, g2)]
+        bad = [mk_nonint(rng, b1), mk_struct(rng, b2), mk_int(rng, u)]
+        bad[2].kind = "int_noconst"
+        consts = [("const", g1, [g1 + "A", g1 + "B"], False), ("const", g2, ["_", g2 + "A"], False)]
+    else:
+        good = [mk_rest(rng, g1), mk_rest(rng, g2)]
+        bad = [mk_iface(rng, b1), mk_struct(rng, b2), mk_nonint(rng, u)]
+    fm.decls.append(("type", [bad[0], good[0], bad[1], good[1], bad[2]], None, True))
+    fm.decls.extend(consts)
+    loc = TS(g1, "local_int", "%s int" % g1, is_int=True)
+    fa.decls.append(("type", [mk_nonint(rng, pool.pop())], None, False))
+    fa.decls.append(("func", "helper1", [loc]))
+    p.files = [fa, fd, fm]
+    p.features.update(["local", "declfree", "group"])
+    return p, [g1, g2]
